@@ -348,6 +348,8 @@ def sampled(res, st, std_coq, extra_vo=()):
     res.add_cases(len(cases), len(set(cases)), [gens.case_lines(cases[:1]).strip()[:200], gens.case_lines(cases[-1:]).strip()[:200]])
     if have and pid == "C16":
         respell_fragment(res, rnd, q)
+    if have and pid == "C10":
+        recovery_correspondence(res, cases)
     if have and pid in ("C05", "C06", "C08"):
         # the theorems are about Parse/ExprModel.v: tie it to ParseExpr (full trees, every position) and evaluate the theorems'
         # hypothesis input_okb on every token list the real lexer produced
@@ -438,6 +440,37 @@ def frag_correspondence(res, inputs, label):
                    not bad, "\n".join("%r\n go:    %s\n model: %s" % b for b in bad[:3]))
     res.extra.setdefault("fragment_correspondence", []).append(dict(st, label=label, inputs=len(inputs), disagreements=len(bad)))
     return st, bad
+
+
+C10_TARGETED = [b"CAST(1 AS ARRAY<STRUCT<x y>>)", b"CAST(1 AS ARRAY<STRUCT<a INT64, b c d>>)", b"CAST(1 AS ARRAY<ARRAY<x y>>) + 1", b"CAST(1 AS STRUCT<x y>>)",
+                b"CAST(x AS ARRAY<STRUCT<a ARRAY<b c>>>)", b"SELECT (1 + ) , x", b"SELECT CASE WHEN 1 2 THEN 3 END, y", b"SELECT a b c FROM t", b"SELECT f(1 2, [3 4]) AS x",
+                b"(SELECT 1 2 UNION ALL SELECT 3) UNION ALL SELECT 4 5", b"SELECT * FROM (SELECT 1 2) UNION ALL SELECT 3", b"SELECT 1 2; SELECT 3",
+                b"CREATE TABLE t (a INT64 x y, b ARRAY<c d>) PRIMARY KEY (a)", b"INSERT INTO t (a) VALUES (1 2), (3)", b"SELECT 1 /* unterminated",
+                b"SELECT (1 'abc", b"SELECT 1a, 2", b"SELECT [1 2] OFFSET 3", b"SELECT {a: 1 2} FROM t", b"SELECT IF(a b, c, d) x y"]
+
+
+def recovery_correspondence(res, cases):
+    """the Bad nodes of real trees vs the Bad nodes predicted by the handler model (Parse/Recovery.v) run from the state of the
+    recovery-mode scan whose current token starts at NodePos"""
+    extra = [(e, s) for s in C10_TARGETED for e in ("ParseExpr", "ParseStatement", "ParseQuery", "ParseType", "ParseDDL", "ParseDML")]
+    g = vlib.run_lines(vlib.HARNESS, ["bad-nodes"], gens.case_lines(cases + extra))
+    withbad = [l for l in g if not l.endswith("=> ") and not l.endswith("=>") and not l.endswith("PANIC")]
+    m = vlib.run_lines(vlib.DRIVER, ["bad-model"], "\n".join(withbad) + "\n")
+    from collections import Counter
+    cnt = Counter(); kinds = Counter(); bad = []
+    for gl, ml in zip(withbad, m):
+        for b in gl.split(" => ", 1)[1].split(";"):
+            if b:
+                kinds[b.split(":")[0]] += 1
+        for v in ml.split(" => ", 1)[1].split(";"):
+            if v:
+                cnt[v.split("(")[0]] += 1
+                if v.startswith("MISMATCH"):
+                    bad.append((gl.split()[0], gl.split()[1], v))
+    res.obligation("correspondence handler model: %d Bad nodes of real trees == Bad nodes predicted by Parse/Recovery.v (NodePos, NodeEnd, number of tokens)" % sum(cnt.values()),
+                   not bad, "\n".join("%s %s %s" % b for b in bad[:5]))
+    res.extra["recovery_correspondence"] = {"inputs_with_bad_nodes": len(withbad), "verdicts": dict(cnt), "by_wrapper": dict(kinds),
+                                            "note": "NOSTATE = NodePos is not the start of a token of the recovery-mode scan (second half of a split '>>'); not compared"}
 
 
 def respell_fragment(res, rnd, q):
